@@ -240,6 +240,15 @@ def run(ctx):
             ok = res["found"]["local"] is not None and all(i["none_get"] for i in res["info"] if not (i["local_payload"] and i["some_get"])) and len(res["info"]) >= 2
             chk.ob("C19.e", f"{wr.path} [local before global]", ok, "emissions go to the thread-local recorder when one is installed; the global one is consulted only otherwise" if ok else "with_recorder does not prefer the thread-local recorder: a global recorder captures metrics meant for a local debugging recorder", wr.loc())
 
+    _imports(ctx)
+
+
+def _imports(ctx):
+    from props.common import import_rules
+
+    import_rules(ctx, "C06", {"C06.b", "C06.c"}, "C19.f", "imported from C06 (the recorder's registry): one hash/shard/key per lookup and check-and-insert in one critical section — otherwise two racing registrations of one key get two storages and the values recorded through the orphaned handle appear in no snapshot", floor=12)
+    import_rules(ctx, "C01", {"C01.a", "C01.b"}, "C19.g", "imported from C01 (per-thread installation): precedence local > global > no-op and save/restore of the thread-local slot on every path incl. unwinding — otherwise metrics emitted after a scope ended (or by another thread) are captured by this recorder", floor=8)
+
 
 def run_config(ctx):
     run(ctx)
